@@ -100,6 +100,11 @@ UNumeralVal(s, sign) == \* sign in {1,-1}; value as numeral
 \* that contains it is an integer numeral of more than 400 digits - far beyond the largest double - and converts to
 \* the nearest IEEE value, an infinity.  (Such strings occur only as node values in the number-conversion families.)
 HasZ(s) == \E i \in 1..Len(s) : s[i] = "Z400"
+\* the number of characters the abstract string stands for
+CharCount(s) == Len(s) + 399 * Cardinality({i \in 1..Len(s) : s[i] = "Z400"})
+\* searching b in a (or mapping the characters of b in a) is decided character by character only when no match can reach into
+\* a run of 400 zeros: b has no such run and, when a has one, no "0" either
+ZSafe(a, b) == ~HasZ(b) /\ (HasZ(a) => \A i \in 1..Len(b) : b[i] # "0")
 ZNumeral(u) == u # <<>> /\ IsDigit(u[1]) /\ u[1] # "0" /\ \A i \in 1..Len(u) : IsDigit(u[i]) \/ u[i] = "Z400"
 StrToNum(str) ==
   LET t == TrimWS(str)
